@@ -159,6 +159,35 @@ fn p_clone() {
 }
 
 #[kani::proof]
+fn p_clone_from() {
+    // assignment by clone_from for every combination of empty / non-empty target and source
+    let v: u32 = kani::any();
+    let (c, keep, e1, e2, n) = any_state(v);
+    let other = Arc::new(D::new(v ^ 1));
+    let okeep = other.clone();
+    let dst_kind: u8 = kani::any();
+    kani::assume(dst_kind < 3);
+    let src_empty: bool = kani::any();
+    let mut dst: CArc<D> = match dst_kind { 0 => CArc::default(), 1 => CArc::from(other.clone()), _ => c.clone() };
+    let src: CArc<D> = if src_empty { CArc::default() } else { c.clone() };
+    let n_src = !src_empty as usize;
+    dst.clone_from(&src);
+    assert!(words3(&dst) == words3(&src), "C10 clone_from makes the target a handle to the source's allocation with the source's function pair (or empty)");
+    assert!(Arc::strong_count(&keep) == n + 2 * n_src, "C10 after clone_from the count of the source's allocation is live handles + retained Arcs (the target's old handle was released, a new one taken)");
+    assert!(Arc::strong_count(&okeep) == 2, "C10 clone_from released the target's old handle to another allocation exactly once");
+    drop(dst);
+    drop(src);
+    assert!(Arc::strong_count(&keep) == n, "C10 dropping target and source releases exactly their handles");
+    drop(c); drop(e1); drop(e2); drop(other);
+    assert!(drops() == 0, "C10 values alive while a retained Arc exists");
+    drop(keep); drop(okeep);
+    assert!(drops() == 2, "C10 both values dropped exactly once");
+    kani::cover!(dst_kind == 1 && src_empty, "non-empty target, empty source");
+    kani::cover!(dst_kind == 2 && !src_empty, "same allocation");
+    kani::cover!(dst_kind == 0 && !src_empty, "empty target");
+}
+
+#[kani::proof]
 fn p_clone_some() {
     let v: u32 = kani::any();
     let arc = Arc::new(D::new(v));
